@@ -46,6 +46,8 @@ type Unit struct {
 	// Lockset: run the static lock-discipline analysis (type contracts protected_by / immutable / ...) over every
 	// function of the unit's packages
 	Lockset bool `json:"lockset,omitempty"`
+	// Scope overrides the property's scope for this unit ("tagged": drop the zero-annotation safety/alloc sweep of this unit)
+	Scope string `json:"scope,omitempty"`
 }
 
 type PropConfig struct {
@@ -205,7 +207,7 @@ func runUnit(u Unit, cfg *PropConfig, tier string, workdir string, res *checkRes
 	if v := os.Getenv("GOVC_TIMEOUT"); v != "" {
 		fmt.Sscanf(v, "%d", &timeout)
 	}
-	if cfg.Scope == "tagged" {
+	if cfg.Scope == "tagged" || u.Scope == "tagged" {
 		// this property's check counts contract clauses (and the invariants / preconditions they rest on);
 		// the zero-annotation safety sweep of code reached after them belongs to other properties
 		var keep []*Obligation
